@@ -13,6 +13,8 @@ ENTERED = set()
 def _late():
     from . import symcbor
     MODULES['vf.symcbor'] = symcbor
+    from . import symbinascii
+    MODULES['vf.symbinascii'] = symbinascii
 
 
 def enter(name):
@@ -38,6 +40,14 @@ def b_int(*a, **k):
             return x.v
         if isinstance(x, SBuf):
             raise Unsupported('int() of symbolic buffer')
+        if len(a) == 1 and not k and type(x) not in (int, str, bytes, float, bool):
+            f = getattr(type(x), '__int__', None) or getattr(type(x), '__index__', None)
+            if f is not None:
+                r = f(x)
+                if isinstance(r, (SInt, SBool)):
+                    return b_int(r)
+                if type(r) is int:
+                    return r
     return int(*a, **k)
 
 
@@ -185,3 +195,12 @@ def m_join(sep, it):
             return out
         return sep.join(items)
     return sep.join(it)
+
+
+def sl(obj, lo, hi, step):
+    ''' obj[lo:hi:step] where the bounds may be symbolic and obj plain bytes. '''
+    if (is_sym(lo) or is_sym(hi)) and type(obj) in (bytes, bytearray, memoryview):
+        if len(obj) == 0:
+            return b''
+        return SBuf(list(SBuf.of(bytes(obj))))[lo:hi:step]
+    return obj[lo:hi:step]
